@@ -59,11 +59,11 @@ def make_case(rng, stream, big=False):
         return p, steps, m
     if stream == 'td_mid':
         p, steps, meta = P.gen_td_mid_program(rng)
-        m = norm_meta({}, 'td'); m['impl_only'] = True; m['only_sigs'] = ('executed-twice',)
+        m = norm_meta({}, 'td'); m['only_sigs'] = ('executed-twice',)      # compared with the model (Build.run_msession)
         return p, steps, m
     if stream == 'mid_session':
         p, steps, meta = P.gen_mid_session_program(rng)
-        m = norm_meta(meta, 'bu'); m['impl_only'] = True
+        m = norm_meta(meta, 'bu')      # compared with the model (Build.run_msession)
         return p, steps, m
     if stream == 'multi':
         p = P.gen_multi_program(rng)
@@ -570,6 +570,6 @@ def corpus(prop):
         # Read and Lower; one session requires Read, then r50 and the marker change and are reported to a bottom-up build
         p = P.Prog(); p.sources = [50, 51]
         p.tasks = {0: ('R', 50, 0, ('T', ('a',))), 1: ('Q', 0, 0, ('T', ('a',))), 2: ('R', 51, 0, ('I', ('l', 0), ('T', ('a',)), ('Q', 0, 0, ('Q', 1, 0, ('T', ('a',))))))}
-        m = {'mode': 'bu', 'repeat_steps': set(), 'probe_steps': {3: 2}, 'bu_steps': {2}, 'impl_only': True}
+        m = {'mode': 'bu', 'repeat_steps': set(), 'probe_steps': {3: 2}, 'bu_steps': {2}}
         out.append((p, [['E', '50', '1'], ['S', '2', 'q', '1', 'q', '2'], ['S', '4', 'q', '0', 'e', '50', '2', 'e', '51', '1', 'b', '2', '50', '51'], ['S', '3', 'q', '0', 'q', '1', 'q', '2']], m, 'corpus'))
     return out
